@@ -160,7 +160,8 @@ def _create_files(  # noqa: C901, PLR0912, PLR0913
 
 
 def _delete_dirs(entries, path, fs):
-    for entry in entries:
+    # remove nested directories before their parents
+    for entry in sorted(entries, key=lambda entry: len(entry.key), reverse=True):
         try:
             fs.rmdir(fs.join(path, *entry.key))
         except OSError:
